@@ -190,7 +190,11 @@ fn build_inputs(seed: u64, scale: u8, per_kind_malformed: usize) -> Vec<Input> {
     // derived text inputs: CRLF line ends, no final line terminator, multi-byte UTF-8 characters
     let mut derived = Vec::new();
     for kind in Kind::ALL.iter().copied().filter(|&k| is_text(k)) {
-        let mut cands: Vec<&Input> = out.iter().filter(|i| i.kind == kind && i.class == "valid" && i.bytes.len() > 40).collect();
+        // the smallest items that have records (not the header-only / empty ones)
+        let mut cands: Vec<&Input> = out
+            .iter()
+            .filter(|i| i.kind == kind && i.class == "valid" && i.bytes.len() > 40 && !i.name.contains("header-only") && !i.name.contains("empty"))
+            .collect();
         cands.sort_by_key(|i| i.bytes.len());
         let take = if scale >= 2 { 2 } else { 1 };
         for base in cands.into_iter().take(take) {
@@ -238,7 +242,7 @@ fn build_inputs(seed: u64, scale: u8, per_kind_malformed: usize) -> Vec<Input> {
     // malformed inputs: truncations and single corrupted bytes of the smallest non-trivial items of every kind
     let mut malformed = Vec::new();
     for kind in Kind::ALL.iter().copied() {
-        let mut cands: Vec<&Input> = out.iter().filter(|i| i.kind == kind && i.class == "valid" && i.bytes.len() >= 120).collect();
+        let mut cands: Vec<&Input> = out.iter().filter(|i| i.kind == kind && i.class == "valid" && i.bytes.len() >= 24).collect();
         cands.sort_by_key(|i| i.bytes.len());
         for (bi, base) in cands.into_iter().take(per_kind_malformed).enumerate() {
             let len = base.bytes.len();
@@ -266,21 +270,90 @@ fn build_inputs(seed: u64, scale: u8, per_kind_malformed: usize) -> Vec<Input> {
     out
 }
 
-fn variants_of(kind: Kind) -> Vec<Variant> {
-    let mut v = kind.variants().to_vec();
+/// A reading API: one of the corpus transcript drivers, or a driver defined here.
+#[derive(Clone, Copy, Debug, PartialEq, Eq)]
+enum Api {
+    Corpus(Variant),
+    /// `fasta::io::Reader::query(&fai::Index, &Region)` (seek + `read_sequence_limit`) for a fixed list of regions
+    /// derived from the index the FASTA indexer computes on the plain slice
+    FastaQuery,
+}
+
+fn variants_of(kind: Kind) -> Vec<Api> {
+    let mut v: Vec<Api> = kind.variants().iter().map(|&v| Api::Corpus(v)).collect();
     if kind == Kind::Crai {
         // `read_index()` next to the record-wise reading
-        v.push(Variant::Eager);
+        v.push(Api::Corpus(Variant::Eager));
+    }
+    if kind == Kind::Fasta {
+        v.push(Api::FastaQuery);
     }
     v
 }
 
-fn variant_name(v: Variant) -> &'static str {
+fn variant_name(v: Api) -> &'static str {
     match v {
-        Variant::Primary => "primary",
-        Variant::Eager => "eager",
-        Variant::Indexer => "indexer",
+        Api::Corpus(Variant::Primary) => "primary",
+        Api::Corpus(Variant::Eager) => "eager",
+        Api::Corpus(Variant::Indexer) => "indexer",
+        Api::FastaQuery => "query",
     }
+}
+
+// ------------------------------------------------------------------------------------------------
+// FASTA region queries (not part of the corpus drivers)
+
+struct FastaQueries {
+    index: noodles_fasta::fai::Index,
+    regions: Vec<noodles_core::Region>,
+}
+
+/// Index from the indexer on the plain slice (`None` if the file cannot be indexed) and a deterministic list of
+/// in-range regions: whole sequence, first base, last base, a slice that crosses line ends.
+fn fasta_queries(bytes: &[u8]) -> Option<FastaQueries> {
+    use noodles_core::{Position, Region};
+    let mut ix = noodles_fasta::io::Indexer::new(bytes);
+    let mut records = Vec::new();
+    loop {
+        match ix.index_record() {
+            Ok(Some(r)) => records.push(r),
+            Ok(None) => break,
+            Err(_) => return None,
+        }
+    }
+    let mut regions = Vec::new();
+    let step = (records.len() / 6).max(1);
+    for rec in records.iter().step_by(step) {
+        let name: &[u8] = rec.name().as_ref();
+        let n = rec.length() as usize;
+        let p = |i: usize| Position::new(i.max(1)).unwrap();
+        regions.push(Region::new(name, ..));
+        regions.push(Region::new(name, p(1)..=p(1)));
+        regions.push(Region::new(name, p(n)..=p(n)));
+        let lb = u64::from(rec.line_base_count()) as usize;
+        if n > 2 {
+            regions.push(Region::new(name, p(n / 3)..=p(n - n / 4)));
+            regions.push(Region::new(name, p(lb.min(n))..=p((lb + 1).min(n))));
+            regions.push(Region::new(name, p(2)..=p((2 * lb + 1).min(n))));
+        }
+    }
+    Some(FastaQueries { index: noodles_fasta::fai::Index::from(records), regions })
+}
+
+fn fasta_query_transcript<R: BufRead + io::Seek>(src: R, q: &FastaQueries) -> Vec<String> {
+    let mut out = Vec::new();
+    let mut r = noodles_fasta::io::Reader::new(src);
+    for region in &q.regions {
+        match r.query(&q.index, region) {
+            Ok(rec) => out.push(format!("R:{}\t{}", region, String::from_utf8_lossy(rec.sequence().as_ref()))),
+            Err(e) => {
+                out.push(format!("ERR:{:?}", e.kind()));
+                return out;
+            }
+        }
+    }
+    out.push("END".into());
+    out
 }
 
 // ------------------------------------------------------------------------------------------------
@@ -566,6 +639,13 @@ impl Read for Tap {
     }
 }
 
+impl io::Seek for Tap {
+    fn seek(&mut self, pos: io::SeekFrom) -> io::Result<u64> {
+        self.last_end = usize::MAX;
+        self.inner.seek(pos)
+    }
+}
+
 impl BufRead for Tap {
     fn fill_buf(&mut self) -> io::Result<&[u8]> {
         let p = self.inner.position();
@@ -615,15 +695,35 @@ fn classify_ends(ends: &[usize], bounds: &[usize], len: usize, d: &mut Delivered
 
 type Outcome = Result<Vec<String>, guard::PanicInfo>;
 
-fn run_plain(inp: &Input, variant: Variant, deep: bool) -> Outcome {
-    guard::catch(|| corpus::transcript_read_variant(inp.kind, variant, &inp.bytes[..], &inp.side, deep, corpus::DEFAULT_CAP))
+/// What a run needs besides the input (computed once per case).
+struct Aux {
+    fasta: Option<FastaQueries>,
 }
 
-fn run_sched(inp: &Input, variant: Variant, deep: bool, s: &Sched, d: Option<&mut Delivered>) -> Outcome {
+fn aux_for(inp: &Input, api: Api) -> Aux {
+    Aux { fasta: if api == Api::FastaQuery { fasta_queries(&inp.bytes) } else { None } }
+}
+
+fn run_plain(inp: &Input, api: Api, deep: bool, aux: &Aux) -> Outcome {
+    guard::catch(|| match api {
+        Api::Corpus(variant) => corpus::transcript_read_variant(inp.kind, variant, &inp.bytes[..], &inp.side, deep, corpus::DEFAULT_CAP),
+        Api::FastaQuery => match &aux.fasta {
+            Some(q) => fasta_query_transcript(io::Cursor::new(&inp.bytes[..]), q),
+            None => vec!["END".into()],
+        },
+    })
+}
+
+fn run_sched(inp: &Input, api: Api, deep: bool, aux: &Aux, s: &Sched, d: Option<&mut Delivered>) -> Outcome {
     let mut tap = Tap::new(s.build(inp));
-    let r = guard::catch(|| match s.mode {
-        Mode::Read(cap) => corpus::transcript_read_variant(inp.kind, variant, &mut tap, &inp.side, deep, cap),
-        Mode::Direct => corpus::transcript_bufread_variant(inp.kind, variant, &mut tap, &inp.side, deep),
+    let r = guard::catch(|| match (api, &s.mode) {
+        (Api::Corpus(variant), Mode::Read(cap)) => corpus::transcript_read_variant(inp.kind, variant, &mut tap, &inp.side, deep, *cap),
+        (Api::Corpus(variant), Mode::Direct) => corpus::transcript_bufread_variant(inp.kind, variant, &mut tap, &inp.side, deep),
+        (Api::FastaQuery, mode) => match (&aux.fasta, mode) {
+            (None, _) => vec!["END".into()],
+            (Some(q), Mode::Read(cap)) => fasta_query_transcript(io::BufReader::with_capacity((*cap).max(1), &mut tap), q),
+            (Some(q), Mode::Direct) => fasta_query_transcript(&mut tap, q),
+        },
     });
     if let Some(d) = d {
         d.calls += tap.inner.calls as u64;
@@ -722,7 +822,7 @@ fn diff(reference: &Outcome, got: &Outcome) -> Option<(String, String)> {
 #[derive(Clone, Debug)]
 struct Case {
     input: usize,
-    variant: Variant,
+    variant: Api,
     /// schedule index range of this (input, variant)
     from: usize,
     to: usize,
@@ -733,7 +833,7 @@ struct World {
     cases: Vec<Case>,
 }
 
-fn sched_key(inp: &Input, variant: Variant) -> u64 {
+fn sched_key(inp: &Input, variant: Api) -> u64 {
     fnv1a(format!("{}|{}", inp.name, variant_name(variant)).as_bytes())
 }
 
@@ -773,19 +873,25 @@ fn case_json(w: &World, c: &Case) -> serde_json::Value {
            "variant": variant_name(c.variant), "schedules": [c.from, c.to]})
 }
 
-fn cause_of(inp: &Input, variant: Variant, deep: bool, s: &Sched, reference: &Outcome) -> &'static str {
-    // 1. without the interrupts
+/// Which ingredient of the schedule the difference `class` is due to.
+fn cause_of(inp: &Input, api: Api, deep: bool, aux: &Aux, s: &Sched, reference: &Outcome, class: &str) -> &'static str {
+    // an Interrupted error can only come from an injection
+    if class.ends_with("error(Interrupted)") {
+        return "interrupted";
+    }
+    let same = |s2: &Sched| diff(reference, &run_sched(inp, api, deep, aux, s2, None)).map(|d| d.0 == class).unwrap_or(false);
+    // 1. the same difference without the interrupts?
     if !matches!(s.intr, IntrPat::None) {
         let s2 = Sched { sizes: s.sizes.clone(), intr: IntrPat::None, mode: s.mode.clone() };
-        if diff(reference, &run_sched(inp, variant, deep, &s2, None)).is_none() {
+        if !same(&s2) {
             return "interrupted";
         }
     }
-    // 2. a BufReader of that capacity over a source that never delivers short
+    // 2. the same difference with a BufReader of that capacity over a source that never delivers short?
     if let Mode::Read(cap) = s.mode {
         if inp.kind.reader_takes_bufread() && cap != corpus::DEFAULT_CAP {
             let s2 = Sched { sizes: SizePat::Full, intr: IntrPat::None, mode: s.mode.clone() };
-            if diff(reference, &run_sched(inp, variant, deep, &s2, None)).is_some() {
+            if same(&s2) {
                 return "capacity";
             }
         }
@@ -802,7 +908,15 @@ fn run_case(ctx: &Ctx, w: &World, c: &Case) -> CaseOut {
     let deep = inp.class != "malformed" && ctx.param("deep") != Some("0");
     let mut o = CaseOut::new();
     o.evaluations = 0;
-    let reference = run_plain(inp, c.variant, deep);
+    let aux = aux_for(inp, c.variant);
+    if c.variant == Api::FastaQuery {
+        match &aux.fasta {
+            Some(q) if c.from == 0 => o.count("fasta_query_regions", q.regions.len() as u64),
+            None if c.from == 0 => o.count("fasta_query_inputs_not_indexable", 1),
+            _ => {}
+        }
+    }
+    let reference = run_plain(inp, c.variant, deep, &aux);
     if c.from == 0 {
         o.count(&format!("inputs[{kind}:{vname}]"), 1);
         o.count(&format!("inputs_{}[{kind}]", inp.class), 1);
@@ -813,6 +927,17 @@ fn run_case(ctx: &Ctx, w: &World, c: &Case) -> CaseOut {
                 o.count(&format!("reference_outcome[{kind}:{}]", if last == "end" { "end" } else { "error" }), 1);
             }
             Err(_) => o.count(&format!("reference_outcome[{kind}:panic]"), 1),
+        }
+    }
+    if ctx.param("dump").is_some() && c.from == 0 {
+        match &reference {
+            Ok(t) => {
+                eprintln!("### {} [{}] {vname}: {} elements", inp.name, inp.class, t.len());
+                for e in t.iter().take(3).chain(t.iter().skip(3).rev().take(2).rev()) {
+                    eprintln!("    {}", clip(e).replace('\r', "\\r"));
+                }
+            }
+            Err(p) => eprintln!("### {} [{}] {vname}: panic {}", inp.name, inp.class, p.sig),
         }
     }
     if let Err(p) = &reference {
@@ -827,11 +952,11 @@ fn run_case(ctx: &Ctx, w: &World, c: &Case) -> CaseOut {
     let mut d = Delivered::default();
     let mut reported = BTreeSet::new();
     for s in &scheds[c.from..c.to] {
-        let got = run_sched(inp, c.variant, deep, s, Some(&mut d));
+        let got = run_sched(inp, c.variant, deep, &aux, s, Some(&mut d));
         o.evaluations += 1;
         o.fps.push(fnv1a(format!("{kind}|{vname}|{}", s.label(bufread)).as_bytes()));
         if let Some((class, desc)) = diff(&reference, &got) {
-            let cause = cause_of(inp, c.variant, deep, s, &reference);
+            let cause = cause_of(inp, c.variant, deep, &aux, s, &reference, &class);
             let sig = format!("{kind}:{vname}:{cause}:{class}");
             if reported.insert(sig.clone()) {
                 o.violation_with(
